@@ -51,7 +51,13 @@ def main(a: T.Any) -> int:
             continue
         copy = make_copy()
         try:
-            apply(copy, m)
+            try:
+                apply(copy, m)
+            except RuntimeError as e:
+                # a later fix commit changed the mutated lines: reported, the other mutants still run
+                rows.append((m['id'], m['property'], 'STALE', str(e), 0.0))
+                print(f"{m['id']:<34} {m['property']} {a.tier:<8} STALE         {e}", flush=True)
+                continue
             env = dict(os.environ, VERIF_REPO=copy, VERIF_EVIDENCE_DIR=os.path.join(copy, 'evidence'))
             if a.tier == 'thorough':
                 env.setdefault('VERIF_BUDGET_S', '240')
